@@ -82,6 +82,11 @@ CHECKS = {
          "Held on every observed execution: 7 combinators x 24 input lengths around every worker/batch/buffer size x worker counts / batch sizes / pipeline counts x latency patterns x GOMAXPROCS in {1,2,16} (quick: about 3900 runs, a rotating third of the larger lengths; thorough: all, two GOMAXPROCS values each). No race report.",
          "Items carry unique ids, so loss, duplication and reordering are directly visible; hooks H3 are add-only no-ops without the tag.",
          "5/C13"),
+ "C05": ("exploration",
+         "spy-service monitor on the real interceptor chain + live-server differential: every method found by reflection is called through a grpc.Server that carries exactly the accounts interceptors in front of spy services (reply code Unimplemented = the handler was reached), for every user x graph x policy, and compared with an independent evaluator of the policy model; on a live GripServer every method is called over gRPC and over the HTTP gateway and a denied call must be refused, leak no element data and leave all graphs unchanged",
+         "The matrix is finite and run completely: 34 methods x 6 users x 2 graphs x 12 policies (spy layer), BulkAdd filtering for every graph pattern of length <= 3, every method with no accounts configured, and 4 (quick) / 7 (thorough) policies x users x graphs x methods x {gRPC, HTTP} on a live server. Held on all of them.",
+         "Trusted: the 10-line policy evaluator and the operation-class rule in c05.go (derived from the documentation, not from accounts.MethodMap); on the live server a refusal is recognised from status codes.",
+         "5/C05"),
 }
 
 NOT_YET = "check not built yet in this session (design in DESIGN.md section 5); claimed once the monitor exists and is silent on the unchanged tree"
